@@ -184,7 +184,9 @@ class Open(object):
 
                     # (9) Long-Lived Graceful Restart (LLGR) Capability
                     elif capability.capa_code == capability.LLGR:
-                        self.capa_dict['LLGR'] = []
+                        # could be more than one LLGR capability
+                        if 'LLGR' not in self.capa_dict:
+                            self.capa_dict['LLGR'] = []
                         while len(capability.capa_value) >= 7:
                             afi, safi, flag = struct.unpack('!HBB', capability.capa_value[:4])
                             time = struct.unpack('!I', b'\x00' + capability.capa_value[4:7])[0]
@@ -196,7 +198,9 @@ class Open(object):
 
                     # (10) Extended Next Hop Encoding Capability
                     elif capability.capa_code == capability.EXTENDED_NEXT_HOP:
-                        self.capa_dict['ext_nexthop'] = []
+                        # could be more than one extended next hop capability
+                        if 'ext_nexthop' not in self.capa_dict:
+                            self.capa_dict['ext_nexthop'] = []
                         while len(capability.capa_value) > 0:
                             afi, safi, nexthop = struct.unpack('!HHH', capability.capa_value[:6])
                             capability.capa_value = capability.capa_value[6:]
